@@ -614,6 +614,23 @@ SPECS += [
     ("C14", "parens-start-does-not-step-over-atoms", "rope/base/worder.py",
      replace_expr_where("_RealFinder._find_parens_start", _is("self._find_primary_start(offset)"), _expr("offset")), ["R14.16"]),
 ]
+# ---- identifier characters (R01.14 / R02.19 / R03.16 / R14.17 / R20.13)
+_ASCII_ID = "char.isalnum() or char == '_'"
+SPECS += [
+    ("C14", "identifier-char-is-isalnum", "rope/base/worder.py",
+     replace_expr_where("is_identifier_char", lambda n: isinstance(n, ast.BoolOp) and isinstance(n.op, ast.Or) and len(n.values) == 3, _expr(_ASCII_ID)), ["R14.17"]),
+    ("C02", "identifier-char-is-isalnum", "rope/base/worder.py",
+     replace_expr_where("is_identifier_char", lambda n: isinstance(n, ast.BoolOp) and isinstance(n.op, ast.Or) and len(n.values) == 3, _expr(_ASCII_ID)), ["R02.19"]),
+    ("C02", "bare-word-match-not-checked-for-whole-word", "rope/refactor/occurrences.py",
+     replace_expr_where("_TextualFinder._re_search", _is("self._is_whole_word(source, start, end)"), _expr("True")), ["R02.19"]),
+    ("C01", "name-delimited-by-word-boundary", "rope/refactor/occurrences.py",
+     replace_expr_where("_TextualFinder._get_occurrence_pattern", _is("'(?<!\\\\w)' + name + '(?!\\\\w)'"), _expr("'\\\\b' + name + '\\\\b'")), ["R01.14"]),
+    ("C03", "home-made-word-test-in-extract", "rope/refactor/extract.py",
+     replace_expr_where("_ExceptionalConditionChecker._is_on_a_word", _is("worder.is_identifier_char(prev)"), _expr("(prev.isalnum() or prev == '_')")), ["R03.16"]),
+    ("C20", "home-made-prefix-scan", "rope/contrib/codeassist.py",
+     replace_expr_where("_PythonCodeAssist._find_starting_offset", _is("worder.is_identifier_char(source_code[current_offset])"),
+                        _expr("(source_code[current_offset].isalnum() or source_code[current_offset] in '_')")), ["R20.13"]),
+]
 SPECS = [s for s in SPECS if s[3] is not None]  # (entries without an AST edit are covered by their kept seed)
 
 SPECS = [s for s in SPECS if s[1] != "tab-to-four-spaces"]
